@@ -213,6 +213,19 @@ fn text_cases(shapes: &[Vec<usize>]) -> Vec<TextCase> {
                 consistent: false,
             });
         }
+        // surplus or missing values that sit on a later line than the first value line
+        let line = toks.join(" ");
+        let later: Vec<(String, String)> = vec![
+            (format!("{}\n{line}\n7.00\n", header(s)), "one surplus token on a third line".into()),
+            (format!("{}\n{line}\n7.00", header(s)), "one surplus token on a third line, no final newline".into()),
+            (format!("{}\n{line}\n\n7.00 8.00\n", header(s)), "two surplus tokens after a blank line".into()),
+            (format!("{}\n{line}\n{line}\n", header(s)), "value line duplicated".into()),
+            (format!("{}\n{line}\n{}\n{line}\n", header(s), header(s)), "whole spectrum concatenated twice".into()),
+            (format!("{}\n{}\n{}\n", header(s), toks[..toks.len() / 2].join(" "), toks[toks.len() / 2..].iter().skip(1).cloned().collect::<Vec<_>>().join(" ")), "values over two lines, one of them deleted".into()),
+        ];
+        for (text, desc) in later {
+            out.push(TextCase { text, what: format!("shape {s:?}: {desc}"), class: "surplus-on-later-line", consistent: false });
+        }
         // shape edits: +-1 per axis, axis appended / prepended / removed
         let mut edits: Vec<(Vec<usize>, String)> = Vec::new();
         for a in 0..s.len() {
@@ -393,7 +406,7 @@ pub fn run(tier: Tier) -> i32 {
         name: "cli: damaged text files".into(),
         evaluations: jobs.len() as u64,
         nontrivial: n_inconsistent,
-        note: format!("{} shapes: every token deletion / insertion / header edit; {} runs were consistent edits excluded from the rejection oracle", tshapes.len(), consistent),
+        note: format!("{} shapes: every token deletion / insertion / header edit, surplus values on later lines (third line, duplicated value line, concatenated spectra); {} runs were consistent edits excluded from the rejection oracle", tshapes.len(), consistent),
         exhaustive: true,
         extra: vec![("consistent_edits".into(), J::Int(consistent as i64))],
     });
